@@ -540,10 +540,10 @@ Proof.
       rewrite Epos in Ew.
       assert (Hw' : w <> WNoSpec) by (intro X; apply Hspec; rewrite <- X; apply (nth_error_In _ _ Hw)).
       pose proof (wants_dom_nth _ _ Hwants k d w Hd Hw) as Hwd.
-      rewrite Hm'. subst w. rewrite Eext. replace k with (Z.to_nat (Z.of_nat k)) at 2 4 5 by lia.
-      apply specified_decides; try assumption; try lia.
-      * replace (Z.to_nat (Z.of_nat k)) with k by lia. exact Hw'.
-      * replace (Z.to_nat (Z.of_nat k)) with k by lia. exact Hwd.
+      pose proof (specified_decides B specified shs (eff_match t m) (Z.of_nat k) d sh units p
+                    (match exto with Some es => nth_error es k | None => None end) HBl ltac:(lia) A) as SD.
+      cbv zeta in SD. rewrite Nat2Z.id in SD.
+      rewrite Hm'. subst w. rewrite Eext. apply SD; assumption.
     + (* not specified: padded *)
       assert (Epos : nth_error pos k = None) by (apply nth_error_None; unfold zlen in *; lia).
       rewrite Epos in Ew. cbn [want_of] in Ew. subst w.
@@ -553,12 +553,12 @@ Proof.
         unfold tag_dim. rewrite Ep. replace (specified <=? Z.of_nat k) with true by lia. cbn [andb].
         rewrite (nd_at_nth _ _ _ Hs). cbn [bind]. apply decides_all. exact Hsh53.
       * (* coordinate padding, Inclusive *)
-        destruct HP as [HP|[HP|HP]]; [congruence| |unfold zlen in *; lia].
+        destruct HP as [HP|[HP|HP]]; [congruence| |fold ds pos in HP; rewrite Zn in HP; lia].
         rewrite <- Hm' in HP. apply incl_of_true in HP.
         assert (Hl : zlen pos < Z.of_nat n) by lia.
         assert (Epad : p = coord d 0 /\ e = coord d (sh - 1)).
         { unfold position2 in Hp. rewrite nth_error_app2 in Hp by lia. unfold extent2 in He. rewrite nth_error_app2 in He by lia.
-          rewrite Lp1 in Hp. rewrite Le1 in He. rewrite nth_error_map in Hp, He. unfold pad in Hp, He. rewrite Ep in Hp, He.
+          rewrite Lp1 in Hp. rewrite Le1 in He. rewrite nth_error_map in Hp, He. unfold pad in Hp, He.
           rewrite nth_error_skipn in Hp, He. replace (Z.to_nat specified + (k - Z.to_nat specified))%nat with k in Hp, He by lia.
           rewrite (Hmx' eq_refl Hl) in Hp, He. rewrite (Nmx k d sh Hd Hs) in Hp, He. cbn in Hp, He. split; congruence. }
         destruct Epad as [-> ->].
@@ -567,7 +567,7 @@ Proof.
         { assert (Huo : unit_of units k d = "none"%string \/ unit_of units k d = getDimensionUnit d).
           { unfold unit_of. destruct units as [|u0 us] eqn:Eun; [left; reflexivity|].
             right. replace (nth_error (u0 :: us) k) with (@None string); [reflexivity|].
-            symmetry. apply nth_error_None. rewrite <- Eun. unfold zlen in *. lia. }
+            symmetry. apply nth_error_None. unfold zlen in *. lia. }
           assert (Hnone : spec_scaling "none" d = Some None) by (destruct d; reflexivity).
           destruct Huo as [-> | ->]; [exists None; split; [exact Hnone|reflexivity]|].
           destruct d as [dt off [du|]|ticks [du|]|nl|nr]; cbn [getDimensionUnit dim_unit_str];
